@@ -37,6 +37,26 @@ def call0(f):
     return f()
 
 
+def call0_thread(f):
+    """Untracked runner that calls the function it is handed in a worker thread and hands its result (or exception) back."""
+    import threading
+
+    box = {}
+
+    def runner():
+        try:
+            box["v"] = f()
+        except BaseException as e:
+            box["e"] = e
+
+    t = threading.Thread(target=runner)
+    t.start()
+    t.join()
+    if "e" in box:
+        raise box["e"]
+    return box["v"]
+
+
 def run_cls(cls, a=0):
     """Untracked runner that is handed a class by name, instantiates it and calls its method."""
     return cls(a).meth()
